@@ -41,6 +41,17 @@ def run(tier, seed, replay):
             with open(cases, "a") as f:
                 for c in extra:
                     f.write(json.dumps(c) + "\n")
+    if not replay:
+        # directed: conversions INTO PMTiles of tile sets that take its writer to the root-directory limit (the metadata block
+        # follows the root directory in the file: "the container metadata survives"): every 6th (thorough: every 2nd) tile count
+        # of the window around the root / leaf switch, found by probing the real writer
+        bfile = os.path.join(d, "boundary.ndjson")
+        C.run_harness(hb, ["boundary", "PMTILES", bfile], timeout=1200)
+        bc = C.read_ndjson(bfile)[::(2 if tier == "thorough" else 3)]
+        with open(cases, "a") as f:
+            for b in bc:
+                f.write(json.dumps({"k": "recomp", "src_tc": "none", "target": "keep", "force": 0, "fmt": "pmtiles", "tiles": b["tiles"],
+                                    "classes": b["classes"], "directed": "pmtiles_root_limit"}) + "\n")
     case_list = C.read_ndjson(cases)
     t = os.path.join(d, "trace.ndjson")
     s = C.run_harness(hb, ["replay", "CONVERT", cases, t, C.scratch_dir("C04")], timeout=6000)
